@@ -31,6 +31,7 @@ func runC01(a *A) {
 	})
 	a.Rule("shape/slots-tile", 3, func() { a.tumblingSlotShapes("TumblingWindow", "size", "size") })
 	a.Rule("shape/buffer-arrival-order", 4, func() { a.ruleBufferArrivalOrder(a.Named("window", "TumblingWindow")) })
+	a.Rule("shape/in-place-filter", 0, func() { a.ruleInPlaceFilter("window") }) // no instance today (positives: cep, C15)
 	a.Rule("shape/advance-by-one", 4, func() {
 		a.ruleAdvanceByOne(a.Named("window", "TumblingWindow"), map[string]string{
 			"(*window.TumblingWindow).Add":   "aligned slot of the first event",
